@@ -1999,7 +1999,7 @@ class Array:
         self._data = data
         return map_qind, block_masks
 
-    def permute(self, perm, axis):
+    def permute(self, perm, axis, new_leg=None):
         """Apply a permutation in the indices of an axis.
 
         Similar as np.take with a 1D array.
@@ -2012,6 +2012,9 @@ class Array:
             The permutation which should be applied to the leg given by `axis`.
         axis : str | int
             A leg label or index specifying on which leg to take the permutation.
+        new_leg : None | :class:`~tenpy.linalg.charges.LegCharge`
+            The new leg after the permutation, needs to have the permuted charges.
+            By default (``None``), use the permuted leg with contiguous equal charges bunched.
 
         Returns
         -------
@@ -2031,8 +2034,13 @@ class Array:
         if len(perm) != oldleg.ind_len:
             raise ValueError('permutation has wrong length')
         inv_perm = inverse_permutation(perm)
-        newleg = LegCharge.from_qflat(self.chinfo, oldleg.to_qflat()[perm], oldleg.qconj)
-        newleg = newleg.bunch()[1]
+        if new_leg is None:
+            newleg = LegCharge.from_qflat(self.chinfo, oldleg.to_qflat()[perm], oldleg.qconj)
+            newleg = newleg.bunch()[1]
+        else:
+            newleg = new_leg
+            if newleg.qconj != oldleg.qconj or not np.array_equal(newleg.to_qflat(), oldleg.to_qflat()[perm]):
+                raise ValueError('incompatible LegCharge: `new_leg` does not have the permuted charges')
         res = self.copy(deep=False)  # data is replaced afterwards
         res.legs[axis] = newleg
         qdata_axis = self._qdata[:, axis]
@@ -2794,8 +2802,9 @@ class Array:
             map_part2self, permutations, self_part = self._advanced_getitem(inds, calc_map_qind=True, permute=False)
         # permutations are ignored by map_part2self.
         # instead of figuring out permutations in self, apply the *reversed* permutations ot other
+        # Note that `permute` by default bunches the leg, while `self_part` is not bunched.
         for ax, perm in permutations:
-            other = other.permute(inverse_permutation(perm), ax)
+            other = other.permute(inverse_permutation(perm), ax, new_leg=self_part.legs[ax])
         # now test compatibility of self_part with `other`
         if self_part.rank != other.rank:
             raise IndexError('wrong number of indices')
